@@ -974,6 +974,9 @@ func (c *Ctx) failureCompensated(fn *ssa.Function, muts []ssa.Instruction, srcs 
 				if !isRet || !isSuccessReturn(r2) {
 					continue
 				}
+				if ei := errResultIndex(h.Signature); ei >= 0 && knownNonNilAt(retOperand(r2, ei), b) {
+					continue // `if err != nil { return err }`
+				}
 				if !mustPrecede(r2, func(in ssa.Instruction) bool {
 					call, ok := in.(*ssa.Call)
 					return ok && call.Call.StaticCallee() == f
